@@ -2260,7 +2260,11 @@ class ResetIndex(Elemwise):
                     # potential improvement is tiny
                     return
                 col = parent.operand("columns")
-                if col in (self.name, "index", self.frame._meta.index.name):
+                if col != self.frame._meta.name:
+                    # Only the Series itself, under the name it keeps without
+                    # the index, is reset_index(drop=True). Everything else is
+                    # a former index level (of a MultiIndex as well) or the
+                    # Series under a new name (it was unnamed or renamed)
                     return
                 if all(
                     isinstance(d(), Projection) and d().operand("columns") == col
